@@ -78,7 +78,7 @@ def run(R):
     if pkgs is None:
         return R.finish()
     R.pkgs = pkgs
-    R.prove("Codec")
+    cc.prove(R)
     if not R.quick:
         R.coqchk("Codec", ["Codec.TotalWr", "Codec.Hand", "Codec.Alloc"])
     b = cc.build(R, pkgs)
